@@ -282,23 +282,34 @@ def make_worker(tier):
 
 def graph_cases(tier):
     """Import graphs over the files {main, a, b, c}: every file declares one struct and imports an ordered list
-    (repeats allowed) of the files after it.  Acyclic by construction, so the split must equal the single file that
-    declares the reachable structs: each exactly once, whatever the number of paths that reach it."""
-    names = ["main", "a", "b", "c"] if tier != "quick" else ["main", "a", "b"]
-    maxlen = 2
-    per_file = []
-    for i, nm in enumerate(names):
-        later = names[i + 1 :]
-        lists = [()]
+    (repeats allowed) of the files after it, so the graph is acyclic.  At most one file also REFERS to the struct
+    of another file.  Model: a file sees its own declarations and everything its imports see (transitively) - not
+    what its importer or a sibling saw.  The split equals the single file that declares the reachable structs,
+    each exactly once; a reference to a struct the file cannot see makes the parse an error."""
+    def ordered_subsets(items, maxlen):
+        out = [()]
         for n in range(1, maxlen + 1):
-            lists += list(itertools.product(later, repeat=n))
-        # a module may also import the same later module three times in a row
-        lists += [(x, x, x) for x in later]
-        per_file.append(lists)
-    out = []
-    for combo in itertools.product(*per_file):
-        out.append(dict(zip(names, combo)))
-    return out
+            out += list(itertools.permutations(items, n))
+        return out
+
+    def build(names, lists_of):
+        per_file = [lists_of(i, nm, names[i + 1 :]) for i, nm in enumerate(names)]
+        refs = [None] + [(f, t) for f in names for t in names if f != t]
+        res = []
+        for combo in itertools.product(*per_file):
+            g = dict(zip(names, combo))
+            for ref in refs:
+                res.append((g, ref))
+        return res
+
+    four = ["main", "a", "b", "c"]
+    if tier == "quick":
+        # ordered subsets, plus a module written twice
+        return build(four, lambda i, nm, later: ordered_subsets(later, 3 if nm == "main" else 2) + [(x, x) for x in later])
+    # thorough: every ordered list with repeats over four files, and ordered subsets over five
+    full = build(four, lambda i, nm, later: [()] + [t for n in range(1, (3 if nm == "main" else 2) + 1) for t in itertools.product(later, repeat=n)] + ([(x, x, x) for x in later] if nm != "main" else []))
+    five = build(["main", "a", "b", "c", "d"], lambda i, nm, later: ordered_subsets(later, 3 if nm == "main" else 2))
+    return full + five
 
 
 def run_graphs(S, tier):
@@ -307,37 +318,51 @@ def run_graphs(S, tier):
     from fcp.parser import get_fcp
     from fcp.error import Logger
 
+    def reach(g, start):
+        seen, todo = [], [start]
+        while todo:
+            x = todo.pop()
+            if x not in seen:
+                seen.append(x)
+                todo += list(g[x])
+        return seen
+
     def work(chunk):
         S2 = Stats()
         td = tempfile.mkdtemp(prefix="fcpmc-c20g-")
         try:
-            for g in chunk:
+            for g, ref in chunk:
                 S2.count("states")
                 S2.count("transitions")
                 S2.count("executions")
-                S2.add("nontrivial", tuple(sorted(g.items())))
+                S2.add("nontrivial", (tuple(sorted(g.items())), ref))
                 texts = {}
                 for nm, imports in g.items():
-                    texts[nm + ".fcp"] = 'version: "3"\n' + "".join("mod %s;\n" % i for i in imports) + "struct S_%s { x @0: u8, }\n" % nm
+                    extra = ", r @1: S_%s" % ref[1] if ref and ref[0] == nm else ""
+                    texts[nm + ".fcp"] = 'version: "3"\n' + "".join("mod %s;\n" % i for i in imports) + "struct S_%s { x @0: u8%s, }\n" % (nm, extra)
                     open(os.path.join(td, nm + ".fcp"), "w").write(texts[nm + ".fcp"])
-                reach, todo = [], ["main"]
-                while todo:
-                    x = todo.pop()
-                    if x not in reach:
-                        reach.append(x)
-                        todo += list(g[x])
-                inp = {"files": texts, "family": "import-graph", "graph": {k: list(v) for k, v in g.items()}}
+                r_main = reach(g, "main")
+                visible_ok = ref is None or ref[0] not in r_main or (ref[1] in reach(g, ref[0]))
+                inp = {"files": texts, "family": "import-graph", "graph": {k: list(v) for k, v in g.items()}, "reference": list(ref) if ref else None}
                 try:
                     res = get_fcp(os.path.join(td, "main.fcp"), Logger({}))
                 except Exception as e:  # noqa
-                    S2.violation("C20.graph", "C20.graph/exception:%s" % type(e).__name__, inp, expected="Ok", actual=str(e)[:200])
+                    S2.violation("C20.graph", "C20.graph/exception:%s" % type(e).__name__, inp, expected="Ok" if visible_ok else "Err", actual=str(e)[:200])
+                    continue
+                if not visible_ok:
+                    if res.is_ok():
+                        S2.add("outcomes", "graph-accepted-invisible-reference")
+                        S2.violation("C20.graph", "C20.graph/reference-to-a-declaration-the-file-never-imported-is-accepted", inp, expected="Err: %s.fcp imports nothing that declares S_%s" % ref, actual=sorted(st.name for st in res.unwrap().structs))
+                    else:
+                        S2.add("outcomes", "graph-err-expected")
                     continue
                 if res.is_err():
                     S2.add("outcomes", "graph-err")
-                    S2.violation("C20.graph", "C20.graph/acyclic-import-graph-rejected/%s" % repr(res.err().msg[0][0]).split(" of ")[0].split("'")[1][:24].replace(" ", "-"), inp, expected="Ok: structs of " + ",".join(sorted(reach)), actual=[m[0] for m in res.err().msg])
+                    first = res.err().msg[0][0]
+                    S2.violation("C20.graph", "C20.graph/acyclic-import-graph-rejected/%s" % ("Cyclic-import" if "Cyclic" in first else "cannot-be-found" if "cannot be found" in first else "other"), inp, expected="Ok: structs of " + ",".join(sorted(r_main)), actual=[m[0] for m in res.err().msg])
                     continue
                 got = sorted(st.name for st in res.unwrap().structs)
-                want = sorted("S_" + x for x in reach)
+                want = sorted("S_" + x for x in r_main)
                 if got != want:
                     S2.add("outcomes", "graph-differs")
                     S2.violation("C20.graph", "C20.graph/declarations-differ/%s" % ("duplicated" if len(got) > len(set(got)) else "missing-or-extra"), inp, expected=want, actual=got)
@@ -348,7 +373,7 @@ def run_graphs(S, tier):
         return S2
 
     gs = graph_cases(tier)
-    for s2 in pmap(work, chunks(gs, 200)):
+    for s2 in pmap(work, chunks(gs, 400)):
         S.merge(s2)
     return len(gs)
 
@@ -380,7 +405,7 @@ def run(tier):
     r.rule = (
         "states = (base schema, assignment of its declarations to {main, m1, m2} closed under declare-before-use, topology star|chain, module path depth, position of each mod "
         "statement up to the point of first need) on a real scratch file tree, compared per category (multiset of to_dict items) with the single-file parse; plus, for every module of "
-        "every split (quick: every 8th split), each injected error {syntax, truncated, undeclared type, missing file}: must be Err naming the module file; plus every acyclic import graph over 3 (thorough 4) one-struct files with ordered import lists of length <= 2 (or one module three times): each reachable struct exactly once. all states non-trivial."
+        "every split (quick: every 8th split), each injected error {syntax, truncated, undeclared type, missing file}: must be Err naming the module file; plus every acyclic import graph over 4 one-struct files with ordered import lists (repeats allowed) and at most one cross-file reference: each reachable struct exactly once, a reference accepted exactly when the referring file imports (transitively) the declaring one. all states non-trivial."
     )
     r.assumptions = ["order of declarations across files is not judged, only the multiset per category"]
     return r.finish()
